@@ -10,7 +10,7 @@ PROP = "C17"
 PROOF_MODULES = ["Abverif.Proofs.C17", "Abverif.Proofs.Lemmas.WsOps", "Abverif.Proofs.Lemmas.WsPing", "Abverif.Proofs.WsPingsKeepComing", "Abverif.Proofs.Lemmas.WsDeadline", "Abverif.Proofs.WsCloseBounded"]
 MANIFEST_ENTRY = {
     "technique": 'Lean 4 theorems on the virtual clock (batched-timer floor lemmas, timer handlers, armed-deadline-implies-closed, inertness after close) + schedule lattice correspondence with an independent deadline oracle',
-    "text": 'Proved on the model: the batched deadline is never late and less than one second early, so a reaction >= 1 s before the nominal deadline precedes it; each timeout handler drops (abort) with its own reason exactly when the connection is not yet closed; an armed closing-handshake timer whose deadline has passed implies CLOSED (close_timeout_drops) and the peer reply cancels it; the same for the opening handshake (open_timeout_drops) and for the pong deadline of an outstanding automatic ping (ping_timeout_drops), each with an example that runs a real history through the hypotheses; every timer callback is inert on a CLOSED connection; server_drop_timeout_drops, connectionLost_cancels, pong_cancels_pingTimeout, handshakeDone_cancels_openHs; sendAutoPing_rearms / pong_rearms (every automatic ping on an OPEN connection arms the pong deadline or, with no deadline configured, the next ping; a matching pong leaves the next ping armed); pings_keep_coming: in every state reachable by any history, an OPEN connection with a ping interval configured has the next ping scheduled (due no later than now + interval) or a ping outstanding with its pong deadline due no later than now + timeout (invariant PK proved for every engine function); closing_bounded (with C05): from every reachable CLOSING state a silent peer means CLOSED once max(closeHandshakeTimeout, serverConnectionDropTimeout) has passed (deadline_bounded: an armed drop timer is never due later than now + its timeout). Tied to the code by running timeout/ping schedules (reactions on a 0.1 s lattice around each deadline, probes at deadline-8u/deadline/deadline+8u, one-hour advance after loss) on real Twisted (task.Clock) and asyncio (virtual loop) objects with exact comparison, plus an independent deadline oracle. Three defects found were repaired in /repo (5b48a5ce, a6d81347, cde7fa2e).',
+    "text": 'Proved on the model: the batched deadline is never late and less than one second early, so a reaction >= 1 s before the nominal deadline precedes it; each timeout handler drops (abort) with its own reason exactly when the connection is not yet closed; an armed closing-handshake timer whose deadline has passed implies CLOSED (close_timeout_drops) and the peer reply cancels it; the same for the opening handshake (open_timeout_drops) and for the pong deadline of an outstanding automatic ping (ping_timeout_drops), each with an example that runs a real history through the hypotheses; every timer callback is inert on a CLOSED connection; server_drop_timeout_drops, connectionLost_cancels, pong_cancels_pingTimeout, handshakeDone_cancels_openHs; sendAutoPing_rearms / pong_rearms (every automatic ping on an OPEN connection arms the pong deadline or, with no deadline configured, the next ping; a matching pong leaves the next ping armed); pings_keep_coming: in every state reachable by any history, an OPEN connection with a ping interval configured has the next ping scheduled (due no later than now + interval) or a ping outstanding with its pong deadline due no later than now + timeout (invariant PK proved for every engine function); closing_bounded (with C05): from every reachable CLOSING state a silent peer means CLOSED once max(closeHandshakeTimeout, serverConnectionDropTimeout) has passed (deadline_bounded: an armed drop timer is never due later than now + its timeout). Tied to the code by running timeout/ping schedules (reactions on a 0.1 s lattice around each deadline, probes at deadline-8u/deadline/deadline+8u, one-hour advance after loss) on real Twisted (task.Clock) and asyncio (virtual loop) objects with exact comparison, plus an independent deadline oracle. Three defects found were repaired in /repo (5b48a5ce, a6d81347, cde7fa2e). With autoPingRestartOnAnyTraffic the end of every data frame, final or not, cancels a pending pong deadline (data_frame_cancels_pingTimeout, nonfinal_frame_cancels_pingTimeout): a peer streaming the fragments of one long message is not dropped for the missing pong; run on the real objects as the non-final-fragment traffic scenario.',
     "note": 'Trusted: Lean kernel; model tied by differential execution; virtual time only (no wall-clock drift or reactor latency); time unit 2^-20 s with _QUEUED_WRITE_DELAY patched to 2^-17 s for exact float arithmetic.',
 }
 TRUSTED = [
